@@ -963,6 +963,16 @@ func (x *Exec) step(st *State, fr *Frame, in ssa.Instruction) {
 			} else {
 				x.fail("FieldAddr on %s", describe(b))
 			}
+		case ElemPtr:
+			// address of a field of an element of an immutable sequence value: read-only, resolved eagerly
+			el := x.load(st, p, nil)
+			fv := x.fieldOf(st, el, ins.Field)
+			if tv, ok := fv.(TV); ok {
+				c := x.newCell(st, tv, tv.Ty)
+				fr.env[ins] = PtrV{Cell: c}
+			} else {
+				x.fail("FieldAddr on element: field is %s", describe(fv))
+			}
 		default:
 			x.fail("FieldAddr on %s", describe(b))
 		}
